@@ -76,6 +76,9 @@ TABLE_PROGRAMS = [
     "p(#inf..3).", "q(X) :- p(X), X = 1..#sup.", "p((1+#inf)..3).", "p(a..3).", "p(1..a).", "p(-(#sup)..1).", "{p(#inf..1)}.", "p(X) :- q(X), X = #inf..#sup.",
     "p(1..N0) :- q(N0).", "p(N1..3, 1..5) :- q(N1).", "{p(1..N0)} :- q(N0).", "p(N0..N0) :- q(N0).", "p(1..2, N0..N1) :- q(N0), q(N1).", "p(N0, 1..N0) :- q(N0).",
     "p(1..2, 3..4, N1) :- q(N1).",
+    # the head atom repeated in the body (under every sign), with multi-valued / partial terms in it
+    "q(1..2) :- not not q(1..2).", "q(1..N, X) :- p(N, X), not not q(1..N, X).", "p(X + 1) :- q(X), not not p(X + 1).", "p(X / 2) :- q(X), not not p(X / 2).",
+    "{q(1..2)} :- not q(1..2).", "q(1..2) :- q(1..2).", "q(0..1, 0..1) :- not not q(0..1, 0..1).", "p(X) :- q(X), not not p(X).",
     # global head variables V1.. against rule variables named V<n> in OTHER rules; the same multi-valued term in two positions
     "p(X) :- t(X, V2). r(V1) :- q(V1).", "p(X, Y) :- t(X, V3), t(Y, V2). r(V1) :- q(V1).", "r(V1) :- q(V1). p(X) :- t(X, V2).", "p(V2) :- q(V2). t(X, Y) :- q(X), q(Y), X != V1, q(V1).",
     "s :- t(1..2, 1..2).", "s :- not t(X..Y, X..Y), q(X), q(Y).", "s :- t(X/2, X/2), q(X).", "{t(0..1, 0..1)}.", "t(X..X+1, X..X+1) :- q(X).", "s :- not not t(0..1, 0..1).", "{p(N0_0..N0)} :- q(N0), q(N0_0).", "p(1..X) :- q(X), not p(X..2).", "p(X..Y) :- q(X), q(Y), X < Y.",
@@ -301,6 +304,9 @@ SUBST_EXTRA = [
     ("exists Y q(Y)", "Y1", "Y"), ("p(Y1) and exists Y (q(Y))", "Y1", "Y"), ("exists Y (t(Y, Y1))", "Y1", "Y"), ("forall Y (q(Y) -> exists Y1 t(Y, Y1))", "Y1", "Y"),
     ("exists N$i (p(N$i) and N$i > 0)", "N1$i", "N$i + 1"), ("q(X1) or exists X (p(X) and not q(X))", "X1", "X"), ("exists Y Y1 (t(Y, Y1))", "Y2", "Y"),
     ("exists Y (q(Y) and exists Y1 (t(Y, Y1) and p(Y11)))", "Y11", "Y1"),
+    # variables below a unary minus: in the term that is substituted, and in the body next to the binder that has to be renamed
+    ("exists Y$i (t(X$i, Y$i))", "X$i", "-Y$i"), ("exists Y$i (t(X, Y$i))", "X", "-Y$i"), ("forall Y$i (q(Y$i) -> t(X$i, Y$i))", "X$i", "1 - -Y$i"),
+    ("exists Y$i (t(X$i, Y$i) and p(-Y1$i))", "X$i", "Y$i"), ("exists Y$i (t(X$i, Y$i) and q(-(Y1$i + 1)))", "X$i", "Y$i + 1"), ("exists N$i (p(-X$i) and t(N$i, X$i))", "X$i", "-N$i * 2"),
     ("exists Y$i Y1$i Y2$i (t(Y$i, Y1$i) and t(Y1$i, Y2$i) and p(X$i))", "X$i", "Y$i + Y1$i + Y2$i"), ("forall Y Y1 (t(X, Y) and p(Y1))", "X", "Y"),
     ("exists Y Y1 Y2 (t(X, Y) and t(Y1, Y2))", "X", "Y1"), ("forall X$i (p(X$i) -> q(X))", "X", "X$i"), ("p(X$i) and p(X$s) and p(X)", "X$i", "X$i + 1"),
 ]
